@@ -39,3 +39,17 @@ Print Assumptions C01_fence_open_total.
 Theorem C01_scan_delimiter_total : forall line before minimum, line <> [] -> ScanDelimiter line before minimum <> Panic.
 Proof. exact (scan_delimiter_total PunctRune SpaceRune emph_delim). Qed.
 Print Assumptions C01_scan_delimiter_total.
+
+(* the Convert model (parser model, checked, then the renderer model): once parsing has returned
+   its tree, rendering cannot fail, in any configuration *)
+Require Import GM.model.ParseI GM.model.ParseChecked GM.proofs.ParseCheckedProofs.
+Theorem C01_convert_render_total : forall c src t, ParseTreeC src = Ok t -> exists o, ConvertModelC c src = Ok o.
+Proof. exact ConvertModelC_render_total. Qed.
+Print Assumptions C01_convert_render_total.
+(* the regular expression matcher of the model (HTML blocks, raw HTML, autolinks) is total by
+   construction (it returns an option); its fuel never runs out: it decides the declarative
+   semantics of proofs/RegexProofs.v *)
+Require Import GM.model.Regex GM.proofs.RegexProofs.
+Theorem C01_regex_matcher_decides : forall r s, re_match r s = true <-> exists i j, Boundary s i /\ Matches s r i j.
+Proof. exact re_match_spec. Qed.
+Print Assumptions C01_regex_matcher_decides.
